@@ -1,6 +1,7 @@
 # /verif top-level targets
 .PHONY: setup model harness clean
-setup: model harness
+setup:
+	tools/setup.sh
 model:
 	tools/build_model.sh
 harness:
